@@ -223,8 +223,10 @@ func (b *Broker) outMsg(topic string, payload []byte, q byte) bresp {
 
 func (b *Broker) process(c *memnet.Conn, bc *bconn, p *mqttref.Packet, kind string) (resp []bresp, closeAfter bool) {
 	if p.Type != mqttref.CONNECT && !bc.accepted {
-		b.ProtoErrors = append(b.ProtoErrors, fmt.Sprintf("conn %d: %s before an accepted CONNECT", c.ID, mqttref.TypeName(p.Type)))
-		return nil, true
+		if !bc.gotConnect {
+			b.ProtoErrors = append(b.ProtoErrors, fmt.Sprintf("conn %d: %s before CONNECT", c.ID, mqttref.TypeName(p.Type)))
+		}
+		return nil, true // refused connection: ignore and close
 	}
 	switch p.Type {
 	case mqttref.CONNECT:
